@@ -104,6 +104,31 @@ PROPS = {
         assumptions=['induction over the message list for the concatenation corollary'],
         trusted_base=[],
     ),
+    'C09': dict(
+        level='proof',
+        text='per meta type: the constructor accepts exactly the documented domain (ints fully symbolic over all integers, '
+             'so every range limit is inside the proof; 30 keys, 4 frame rates and all 256 power-of-two denominators enumerated '
+             'exhaustively), bytes() == FF type canonical-VLQ(len) payload with the SMF payload layout and every item a byte, and '
+             'MetaMessage.from_bytes(m.bytes()) == m for payloads of ANY length (loop invariant over the length-prefix scan, '
+             'with termination). encode_variable_int is proved canonical for all non-negative integers, decode_variable_int is '
+             'its inverse on every VLQ-shaped list (lemma VLQ.value by induction).',
+        note='trusted: pyvc, z3/cvc5, SMF payload layouts and documented domains in contracts/spec_meta.py; text payloads use '
+             'an assumed codec contract (Dec(cs, Enc(cs, s)) == s for encodable s); non-power-of-two denominators and non-integer '
+             'kinds are checked on representative values; known findings K1 (smpte hours >= 32) and K4 (list-valued '
+             'sequencer_specific data) are listed in known_findings.json and proved absent outside their regions',
+        clauses=[
+            ['constructor accepts exactly the documented domain (per attribute)', 'P'],
+            ['bytes() == FF type vlq(len) payload, all bytes; length VLQ canonical', 'P'],
+            ['from_bytes(bytes(m)) == m, any payload length', 'P (PA codec axiom for text)'],
+            ['encode_variable_int canonical for all n >= 0; decode_variable_int inverse; lemma VLQ.value', 'P'],
+            ['all 256 denominators accepted and round-trip; 30 keys; 4 frame rates', 'P (exhaustive enumeration of the finite domains)'],
+            ['non-powers of two rejected', 'B'],
+            ['reading a meta event from a track', 'see C07/C08'],
+        ],
+        assumptions=['text codec: Encodable(cs, s) => Dec(cs, Enc(cs, s)) == s and Enc yields bytes',
+                     'list.reverse(): new[k] == old[len-1-k] (builtin contract)'],
+        trusted_base=[],
+    ),
     'C02': dict(
         level='proof',
         text='Message.from_bytes / decode_message are verified against the MIDI 1.0 well-formedness predicate for integer '
@@ -124,5 +149,5 @@ PROPS = {
 }
 
 NOT_APPLICABLE = {pid: _PENDING for pid in
-                  ['C07', 'C08', 'C09', 'C10', 'C11', 'C12', 'C13', 'C14', 'C15',
+                  ['C07', 'C08', 'C10', 'C11', 'C12', 'C13', 'C14', 'C15',
                    'C16', 'C17', 'C18', 'C19', 'C20']}
